@@ -351,7 +351,7 @@ func (s *Scope) Gen(ev string) (Call, bool) {
 	case "instE": // ... followed by an entry in the same save
 		i := last + 2
 		return save(multiraft.PersistentState{HardState: &raftpb.HardState{Term: T, Vote: s.HS.Vote, Commit: i}, Snapshot: mkSnap(i, T, []uint64{1, 2}),
-			Entries: []raftpb.Entry{NormalEntry(i, T), NormalEntry(i+1, T)}})
+			Entries: []raftpb.Entry{NormalEntry(i+1, T), NormalEntry(i+2, T)}})
 	case "instM": // leader snapshot inside the held log, no hard state: the suffix stays, commit is raised by the store
 		i := s.floor() + 1
 		if i > last || s.HS.Term == 0 {
